@@ -445,8 +445,8 @@ def report(ctx, cases, ev, do_shrink=True):
             elif q['kind'] == 'e2v' and q['self_loop'] and r.get('exc') == 'AttributeError':
                 sig = {'fn': 'e2v', 'defect': 'include_self_loop-AttributeError'}
             else:
-                sig = {'fn': q['kind'], 'defect': d.split(':')[0][:60],
-                       'kind': c['mesh']['tags'].get('kind')}
+                sig = {'fn': q['kind'], 'defect': re.sub(r'[\d(:].*', '', d).strip()[:60],
+                       'several_types': len(c['mesh']['blocks']) > 1}
             small = c
             sqi = qi
             is_known = any(f.get('property') == PID and f.get('status') == 'open' and
@@ -486,7 +486,7 @@ def report(ctx, cases, ev, do_shrink=True):
             n_corr += 1
             has_oracle = any(x == qi for x, _ in oracle_fail[c['id']])
             sig = {'kind': 'correspondence', 'fn': q['kind'],
-                   'mesh_kind': c['mesh']['tags'].get('kind'),
+                   'several_types': len(c['mesh']['blocks']) > 1,
                    'malformed': c['mesh']['tags'].get('malformed')}
             small, sqi = c, qi
             if do_shrink and budget > 0 and json.dumps(sig, sort_keys=True) not in ctx._seen_sigs:
